@@ -13,6 +13,7 @@ mkdir -p "$S/repo" "$S/out"
 mkdir -p "$S/build"
 if [ -d /verif/build/asan ]; then cp -a /verif/build/asan "$S/build/asan"; find "$S/build/asan" -name '*.d' | xargs sed -i -e "s# /repo/# $S/repo/#g" -e "s#^/repo/#$S/repo/#" -e "s#build/asan/#$S/build/asan/#g"; fi
 cd /verif
+if [ "$PROP" = "exec" ]; then make -s -j16 REPO="$S/repo" BUILD="$S/build" >/dev/null 2>&1; NIXSIM_TRACE=1 "$S/build/asan/nixsim" exec "$TIER" 2>&1 | tail -${TAIL:-12}; exit 0; fi
 NIXSIM_REPO="$S/repo" NIXSIM_BUILD="$S/build" NIXSIM_OUT="$S/out" ./check "$PROP" "$TIER" 2>&1 | sed "s#$S/out#<scratch>#g" | tail -${TAIL:-12}
 for f in "$S"/out/replays/*.json; do [ -f "$f" ] && [ -n "$KEEP" ] && mkdir -p "$KEEP" && cp "$f" "$KEEP/"; done
 exit 0
